@@ -312,11 +312,18 @@ Enqueue(p, m) ==
 DropOld(p, m) == (m.i < inst[p] \/ (m.i = inst[p] /\ phase[p] = "TERMINATED")) /\ UNCHANGED vars
 
 PhaseOrd(ph) == CASE ph = "QUALITY" -> 1 [] ph = "CONVERGE" -> 2 [] ph = "PREPARE" -> 3 [] ph = "COMMIT" -> 4 [] OTHER -> 5
+\* messageQueue.Drain returns the queued messages sorted by round, then phase; the order inside a group of equal round and phase is Go map
+\* iteration order (by sender), i.e. arbitrary.  Every order of a group is considered; the states reached are merged before the next group is
+\* processed (orders of different groups do not multiply).
+RECURSIVE Perm(_, _, _, _)
+Perm(p, sts, g, inp) ==
+  IF g = {} THEN sts
+  ELSE UNION {Perm(p, UNION {Absorb(p, st, Strip(m), inp) : st \in sts}, g \ {m}, inp) : m \in g}
 RECURSIVE Drain(_, _, _, _)
 Drain(p, sts, ms, inp) ==
   IF ms = {} THEN sts
   ELSE LET mins == {m \in ms : \A x \in ms : m.r < x.r \/ (m.r = x.r /\ PhaseOrd(m.ph) <= PhaseOrd(x.ph))}
-       IN UNION {Drain(p, UNION {Absorb(p, st, Strip(m), inp) : st \in sts}, ms \ {m}, inp) : m \in mins}
+       IN Drain(p, Perm(p, sts, mins, inp), ms \ mins, inp)
 RECURSIVE SkipDesc(_, _, _)
 SkipDesc(w, s, rs) ==
   IF rs = {} THEN {s}
